@@ -267,15 +267,30 @@ def rule_rca(repo, rep):
   rep.rule(Rl, 'the centring loop visits every chunk id present: '
            'range(chunks.max() + 1) or a loop over the distinct ids')
   loops_ = [n for n in ast.walk(f.node) if isinstance(n, ast.For)]
-  ncd = [v for (n, v) in guards.assignments(f.node, 'n_chunks')
+  # the loop bound is whatever name stands inside range(...) (role, not name)
+  bname = None
+  if loops_ and isinstance(loops_[0].iter, ast.Call) and \
+          ast.unparse(loops_[0].iter.func) == 'range' and \
+          len(loops_[0].iter.args) == 1 and \
+          isinstance(loops_[0].iter.args[0], ast.Name):
+    bname = loops_[0].iter.args[0].id
+  ncd = [v for (n, v) in guards.assignments(f.node, bname or 'n_chunks')
          if v is not None]
   if loops_:
     it = ast.unparse(loops_[0].iter)
     ok_l = None
     if it.startswith('range(') and ncd:
       d_ = ast.unparse(ncd[0])
-      if d_ in ('chunks.max() + 1', 'chunk_labels.max() + 1',
-                'np.max(chunks) + 1', 'int(chunks.max()) + 1'):
+      # <labels>.max() + 1 where <labels> is the chunks parameter or its
+      # restriction chunks[<mask>] held in a local
+      lab_names = {'chunks'} | set(
+          n.targets[0].id for n in ast.walk(f.node)
+          if isinstance(n, ast.Assign) and isinstance(n.targets[0], ast.Name)
+          and isinstance(n.value, ast.Subscript) and
+          ast.unparse(n.value.value) == 'chunks')
+      if any(d_ in ('%s.max() + 1' % x, 'np.max(%s) + 1' % x,
+                    'int(%s.max()) + 1' % x, '1 + %s.max()' % x)
+             for x in lab_names):
         ok_l = True
       elif 'unique' in d_ or 'len(' in d_:
         ok_l = False
@@ -289,10 +304,16 @@ def rule_rca(repo, rep):
               'refuted', site(f, loops_[0]), '' if ok_l else 'the loop runs '
               'over range(%s): chunk ids with gaps (e.g. {0, 3, 9}) are '
               'never centred' % ast.unparse(ncd[0]))
+  # the mask is the first element of the returned pair (role, not name)
+  mname = None
+  for r_ in ast.walk(f.node):
+    if isinstance(r_, ast.Return) and isinstance(r_.value, ast.Tuple) and \
+            r_.value.elts and isinstance(r_.value.elts[0], ast.Name):
+      mname = r_.value.elts[0].id
   masks = [ast.unparse(n.value) for n in ast.walk(f.node)
            if isinstance(n, ast.Assign) and
            isinstance(n.targets[0], ast.Name) and
-           n.targets[0].id == 'chunk_mask']
+           n.targets[0].id == mname]
   good = masks and masks[0] in ('chunks != -1', 'chunks >= 0', 'chunks > -1')
   rep.add(R, 'rca._chunk_mean_centering:mask', 'derived' if good else
           'refuted', site(f), '' if good else 'chunk mask is %s' % masks)
@@ -593,7 +614,29 @@ def rule_lfda(repo, rep):
         lit = node.test.comparators[0].value
         body = ' '.join(ast.unparse(s) for s in node.body)
         if lit == 'weighted':
-          ok = 'np.sqrt(vals)' in body and ('*=' in body or '*' in body)
+          # names by role: eigenvectors = what is stored transposed,
+          # eigenvalues = what was arg-sorted
+          vecn = [ast.unparse(n_.value.value) for n_ in stores
+                  if isinstance(n_.value, ast.Attribute)]
+          valn = []
+          for (_n, call_, _sl) in orders:
+            a_ = call_.args[0]
+            if isinstance(a_, ast.UnaryOp):
+              a_ = a_.operand
+            valn.append(ast.unparse(a_))
+          ok = False
+          for s_ in node.body:
+            if isinstance(s_, ast.AugAssign) and isinstance(s_.op, ast.Mult) \
+                    and ast.unparse(s_.target) in vecn and \
+                    ast.unparse(s_.value) in ['np.sqrt(%s)' % v for v in valn]:
+              ok = True
+            if isinstance(s_, ast.Assign) and \
+                    ast.unparse(s_.targets[0]) in vecn and \
+                    ast.unparse(s_.value) in [
+                        '%s * np.sqrt(%s)' % (a, v) for a in vecn
+                        for v in valn] + ['np.sqrt(%s) * %s' % (v, a)
+                                          for a in vecn for v in valn]:
+              ok = True
           rep.add(R, 'LFDA.fit:weighted', 'derived' if ok else 'refuted',
                   site(f, node), '' if ok else 'weighted embedding: ' + body)
         if lit == 'orthonormalized':
@@ -621,12 +664,69 @@ def rule_lfda_scatter(repo, rep):
            's s^T / n - S_w (reference: the algebraic expansion of '
            '1/2 sum_ij W_ij (x_i - x_j)(x_i - x_j)^T)')
   c = repo.get_class('LFDA')
-  f = repo.resolve_method(c, 'fit')
+  f0 = repo.resolve_method(c, 'fit')
+  # roles are discovered from definitions and uses, then the body is matched
+  # under canonical names (tSb, tSw, n, d, nc, Xc, G, A)
+  roles = {}
+  for n_ in ast.walk(f0.node):
+    if isinstance(n_, ast.Call) and (repo.dotted(f0.module, n_.func) or
+                                     '').endswith('lfda._eigh') and \
+            len(n_.args) >= 2 and all(isinstance(a, ast.Name)
+                                      for a in n_.args[:2]):
+      roles[n_.args[0].id] = 'tSb'
+      roles[n_.args[1].id] = 'tSw'
+    if isinstance(n_, ast.Assign) and isinstance(n_.targets[0], ast.Tuple) \
+            and ast.unparse(n_.value) == 'X.shape' and \
+            len(n_.targets[0].elts) == 2 and \
+            all(isinstance(e, ast.Name) for e in n_.targets[0].elts):
+      roles[n_.targets[0].elts[0].id] = 'n'
+      roles[n_.targets[0].elts[1].id] = 'd'
+  sb = [k for k, v in roles.items() if v in ('tSb', 'tSw')]
+  loops0 = [n for n in ast.walk(f0.node) if isinstance(n, ast.For) and
+            any(isinstance(s_, ast.AugAssign) and
+                ast.unparse(s_.target) in sb for s_ in n.body)]
+  if len(loops0) == 1:
+    for s_ in loops0[0].body:
+      if isinstance(s_, ast.Assign) and isinstance(s_.targets[0], ast.Name):
+        v_ = s_.value
+        if isinstance(v_, ast.Subscript) and ast.unparse(v_.value) == 'X':
+          roles[s_.targets[0].id] = 'Xc'
+    xc = [k for k, v in roles.items() if v == 'Xc']
+    incs = [s_ for s_ in loops0[0].body if isinstance(s_, ast.AugAssign) and
+            ast.unparse(s_.target) in sb]
+    for s_ in loops0[0].body:
+      if isinstance(s_, ast.Assign) and isinstance(s_.targets[0], ast.Name) \
+              and xc and ast.unparse(s_.value) in ('%s.shape[0]' % xc[0],
+                                                   'len(%s)' % xc[0]):
+        roles[s_.targets[0].id] = 'nc'
+    if len(incs) >= 2:
+      common = None
+      for s_ in incs:
+        nm = set(x.id for x in ast.walk(s_.value) if isinstance(x, ast.Name))
+        common = nm if common is None else common & nm
+      common = [x for x in (common or ()) if x not in roles and x != 'np' and
+                x not in ('X',)]
+      if len(common) == 1:
+        roles[common[0]] = 'G'
+        gd = [s_ for s_ in loops0[0].body if isinstance(s_, ast.Assign) and
+              ast.unparse(s_.targets[0]) == common[0]]
+        if gd:
+          # the affinity matrix: the name whose row sums appear in G
+          for x in ast.walk(gd[0].value):
+            if isinstance(x, ast.Call) and isinstance(x.func, ast.Attribute) \
+                    and x.func.attr == 'sum' and \
+                    isinstance(x.func.value, ast.Name):
+              roles[x.func.value.id] = 'A'
+  f = astutil.role_view(f0, roles)
+  if f is None:
+    rep.unknown(R, 'LFDA.fit', site(f0), 'roles %s cannot be given canonical '
+                'names without conflating variables' % roles)
+    return
   loops = [n for n in ast.walk(f.node) if isinstance(n, ast.For) and
            any(isinstance(s, ast.AugAssign) and
                ast.unparse(s.target) in ('tSb', 'tSw') for s in n.body)]
   if len(loops) != 1:
-    rep.unknown(R, 'LFDA.fit', site(f), 'class loop not recognised')
+    rep.unknown(R, 'LFDA.fit', site(f0), 'class loop not recognised')
     return
   loop = loops[0]
   skips = [b for b in ast.walk(loop) if isinstance(b, (ast.Continue,
